@@ -162,6 +162,9 @@ def verus_part(unit_name, threads=16, rlimit=200, builder_kwargs=None, tag='', i
                 else:
                     for c in fc.clauses():
                         props |= set(c.props)
+                    # a failed proof step is never attributed to the safety properties: if a safety fact depended on
+                    # it, the corresponding built-in obligation fails as well and is reported as such
+                    props -= {'C14', 'C18', 'C19'}
             pr.obs.append(Ob(oid, sorted(props), FAILED, 'verus/z3', fn=f, kind=oid.rsplit('#', 1)[1], text='woven proof step / trait-level contract in ' + f, detail=det))
         else:
             # cannot attribute: make the part undecided rather than guess
